@@ -14,7 +14,9 @@ E2 bounded grammar enumeration on the real Substance class.  Four disjoint strat
   history    E1 exploration of operation histories on LIVE substances: start objects (CO2 from string and from
              dictionary, Ca(OH)2, the single-species formulas O and (N)) x every sequence of 1..2 (thorough 3)
              operations from {add(existing species, n), add(new species, n), + substance sharing a species,
-             + disjoint substance, + Element object (existing / new species), * k, s += substance, s *= k}, unpruned,
+             + disjoint substance, + Element object (existing / new species), * k, s += substance, s *= k,
+             identity-like operands: + Substance() (empty), Substance() + s, s += Substance(), * 1, and the live object
+             as the RIGHT operand: Substance('CO') + s}, unpruned,
              with table reads restricted to one component (both `quantity` flags) between the steps; after the last step the
              object is compared with the reference counts dict, the operands of every non-mutating step are re-read
              (they must still hold their own counts), the bystander formulas H2O, Ca(OH)2, O, (N), NaCl are
@@ -49,7 +51,10 @@ RULE = ("a case is one (formula string, isotope mode) or one (algebraic expressi
         "disjoint by construction (single species / flat two-species / everything else / algebra) and strings are "
         "de-duplicated inside each stratum; non-trivial = species stratum: every distinct species spelling; pair and "
         "structure strata: formula with >= 2 species occurrences or a group or a count; algebra: every expression; "
-        "history: every (start object, mode, operation sequence), all distinct, none pruned")
+        "history: every (start object, mode, operation sequence), all distinct, none pruned; the operation alphabet "
+        "includes the identity-like operands (empty Substance() on either side of '+', '+= Substance()', '* 1') and "
+        "the live object as right operand of '+'; every operand of a non-mutating step (left and right) is re-read "
+        "after the whole history")
 ASSUMPTIONS = [
     "PT_DATA and the unit-table rows Da, [m_e], [m_p], [m_n] are read as published data (the oracle does not "
     "re-derive isotope masses)",
@@ -95,11 +100,15 @@ BYSTANDERS = {           # fresh substances constructed after every history: for
 }
 HIST_OTHERS = {          # right operands of '+': formula -> counts in component order
     "CO": [["C", 1], ["O", 1]], "OH2": [["O", 1], ["H", 2]], "N2": [["N", 2]],
+    "": [],                  # the empty substance Substance() (identity of '+': the accumulator idiom)
 }
 HIST_OPS = [["add", "O", 2], ["add", "C", 1], ["add", "N", 1],
             ["plus", "CO"], ["plus", "OH2"], ["plus", "N2"], ["mul", 2], ["mul", 0.5],
             ["pluscomp", "O", 2], ["pluscomp", "N", 1],      # + Element('O', proportion=2), + Element('N')
-            ["iadd", "CO"], ["imul", 2]]                     # augmented assignment  s += Substance('CO'),  s *= 2
+            ["iadd", "CO"], ["imul", 2],                     # augmented assignment  s += Substance('CO'),  s *= 2
+            # identity-like operands: the result must be a substance of its own with the same counts (operating on it
+            # afterwards must not reach the operands), and the live object as the RIGHT operand of '+'
+            ["plus", ""], ["rplus", ""], ["rplus", "CO"], ["iadd", ""], ["mul", 1]]
 HDEPTH = dict(quick=2, thorough=3)
 
 
@@ -356,6 +365,8 @@ def _compare_substance(sub, case, s, counts, natural, tags):
     if set(got) != set(counts) or any(got[k] != counts[k] for k in counts):
         return failure(sub, case, {k: float(v) for k, v in counts.items()}, {k: float(v) for k, v in got.items()},
                        tags, "counts-differ")
+    if not counts:
+        return None     # an empty substance (operand of a history) has no tables: nothing more is demanded of it
     o = outcome(s.data_components, quantity=False)
     if o[0] == "err":
         return failure(sub, case, "data_components()", list(o), tags, "raises:" + o[1] + ":data_components")
@@ -498,7 +509,7 @@ def check_algebra(kind, a, b, n, natural):
 # ------------------------------------------------------------------------------------------ histories
 def _hist_ops(history):
     """operations with the '+' operand spelled out as [key, amount] pairs for the reference model"""
-    return [[o[0], HIST_OTHERS[o[1]]] if o[0] in ("plus", "iadd") else o for o in history]
+    return [[o[0], HIST_OTHERS[o[1]]] if o[0] in ("plus", "rplus", "iadd") else o for o in history]
 
 
 def _prefixed(bad, prefix, extra_tag):
@@ -518,7 +529,7 @@ def check_history(start, natural, history):
     mops = _hist_ops(history)
     counts = R.model_run(counts0, mops)
     tags = R.history_tags(counts0, mops) + ["natural" if natural else "abundant", "input:" + start.split(":")[1]]
-    formulas = [o[1] for o in history if o[0] in ("plus", "iadd")]
+    formulas = [o[1] for o in history if o[0] in ("plus", "rplus", "iadd")]
     alive = []
 
     def reads(obj):
@@ -532,7 +543,8 @@ def check_history(start, natural, history):
     def run():
         obj = Substance(dict(arg) if isinstance(arg, dict) else arg, natural=natural)
         it = iter(formulas)
-        final = R.real_run(obj, mops, lambda pairs: Substance(next(it), natural=natural), False,
+        final = R.real_run(obj, mops, lambda pairs: (Substance(next(it), natural=natural) if pairs else
+                                                     (next(it), Substance(natural=natural))[1]), False,
                            make_component=lambda k, a: Element(k, proportion=a, natural=natural),
                            counts=counts0, alive=alive, after_step=reads)
         reads(final)
@@ -767,7 +779,8 @@ def finish(total, tier, seed):
     if not any(k.startswith("structure:accepted:deco=2") for k in h):
         raise HarnessError("vacuous run: no 2-decoration structure was accepted")
     for key in ("add-existing", "add-new", "plus-shared", "plus-shared-last", "plus-disjoint", "mul",
-                "pluscomp-existing", "pluscomp-new", "iadd", "imul"):
+                "pluscomp-existing", "pluscomp-new", "iadd", "imul", "plus-empty", "rplus-empty", "iadd-empty",
+                "rplus-shared", "rplus-disjoint", "mul-identity"):
         if not h.get("history:last:" + key):
             raise HarnessError("vacuous run: no history ends with " + key)
     hstates = total.sets.get("hstates", set())
@@ -806,10 +819,14 @@ MANIFEST = dict(
          "alphabet x counts x separators, every formula shape up to 5 species occurrences / 3 groups / nesting 3 with "
          "<= 1 decoration and up to 4 / 2 / 2 with <= 2 decorations (count, blank or explicit '+', explicit '* n', "
          "substituted or repeated species), a+b, a*n, (a+b)*n, a*n+b over 10 formulas, and every history of <= 2 "
-         "(thorough 3) operations {add existing/new species, + sharing/disjoint substance, + Element, * k, +=, *=; partial table "
+         "(thorough 3) operations {add existing/new species, + sharing/disjoint substance, + Element, * k, +=, *=, "
+         "+ empty Substance() on the right / on the left / by +=, * 1, substance + live object (live object as right "
+         "operand); partial table "
          "reads between the steps} on 5 live "
          "start substances in both modes, compared with a counts dict after the last step (table rows, sum row and the "
-         "object's own total mass / total number), with re-read of all operands and 5 freshly constructed bystander "
+         "object's own total mass / total number), with re-read of all left and right operands (a result must be a "
+         "substance of its own: later in-place operations on it must not reach an operand, also when the other "
+         "operand was empty or the factor 1) and 5 freshly constructed bystander "
          "formulas after every history. Counts compared exactly, "
          "Z/N/e totals to 1e-12, masses to 1e-10. Quick runs the core plus one seed-selected window of 32.",
     note="Trusted: PT_DATA and four unit-table rows as data, the 5-line reference expansion. Not covered: explicit "
